@@ -197,7 +197,7 @@ def subSel (sel : Sel) (k : Key) : Option Sel :=
 
 /-! ## results -/
 
-inductive Err | valueError | keyError | typeError | attributeError
+inductive Err | valueError | keyError | typeError
 deriving Repr, DecidableEq
 
 /-- `ArrayProxy` context: run-time index and the signals of the elements -/
@@ -235,8 +235,9 @@ def strip (c : Option PCtx) : Obj → Option PCtx × Obj
   | .proxy i s t => (some ⟨i, s⟩, t)
   | o => (c, o)
 
-/-- `assign_arg_fields` (assign.py:31-56); under a proxy context this is `arrayproxy_fields`:
-    `shape().members` exists for Struct and Union layouts, an Array layout raises AttributeError -/
+/-- `assign_arg_fields` (assign.py:31-62); under a proxy context this is `arrayproxy_fields`: the member
+    names of Struct and Union layouts, `range(length)` for an Array layout (repaired by b9861c1; before,
+    `shape().members` raised AttributeError there) -/
 def argFields (c : Option PCtx) : Obj → Except Err (Option (List Key))
   | .view k _ _ _ ms =>
     match c, k with
@@ -245,7 +246,7 @@ def argFields (c : Option PCtx) : Obj → Except Err (Option (List Key))
     | none, .union => pure none
     | some _, .struct => pure (some ms.keys)
     | some _, .union => pure (some ms.keys)
-    | some _, .array => throw .attributeError
+    | some _, .array => pure (some ms.keys)
   | .dict ms => pure (some ms.keys)
   | .list ms => pure (some ms.keys)
   | _ => pure none
@@ -317,7 +318,7 @@ def shapeEq : ShapeD → ShapeD → Bool
   | .layout z f, .layout z' f' => z == z' && f.length == f'.length && f.all (· ∈ f')
   | _, _ => false
 
-/-- the loops at assign.py:197-202: descend through single-member structures -/
+/-- the loops at assign.py:203-210: descend through single-member structures -/
 def unwrap (c : Option PCtx) : Obj → Except Err (Obj × Path)
   | .view k st off sz ms =>
     match argFields c (.view k st off sz ms) with
@@ -354,6 +355,9 @@ def assignLeaf (lc : Option PCtx) (lhs : Obj) (rc : Option PCtx) (rhs : Obj) (se
     | .error e, _ => .error e
     | _, .error e => .error e
     | .ok (l, ul), .ok (r, ur) =>
+      -- the loops set `lhs_strict` / `rhs_strict = isinstance(·, ValueLike)` (true here) on every step (744698a)
+      let ls := ls || !ul.isEmpty
+      let rs := rs || !ur.isEmpty
       let check := isVC lc l || isVC rc r || ((ls || explicit lc l) && (rs || explicit rc r))
       if check && !shapeEq (shapeOf lc l) (shapeOf rc r) then throw .valueError
       else pure [⟨lp ++ ul, rp ++ ur, check, flowOf lc l rc r⟩]
